@@ -409,7 +409,11 @@ class Builder:
         elif fail == "toolarge":
             i = rng.randrange(n)
             vols[i] = M + rng.choice(STEPS)
-        elif fail == "kw":
+        if self.cfg["auto_split"]:
+            # DESIGN §3.1: at most a few hundred split steps per volume (a same-well transfer never
+            # overflows, so an injected "overflow" volume could otherwise be split 40 000 times)
+            vols = [min(v, 400 * M) for v in vols]
+        if fail == "kw":
             op["kw"] = self.bad_kw()
             if all(v == 0 for v in vols):
                 vols[0] = F(1)
